@@ -285,13 +285,15 @@ def run_case(case):
                     labels.append("lattice-shifted-copy")
             dA = [x[f, T[:, 0]] - x[f, T[:, 1]], x[f, T[:, 2]] - x[f, T[:, 1]]]
             a_o, a_r = res[True][0][f].astype(np.float64), res[False][0][f].astype(np.float64)
-            cmp_a = ~shaky(dA[0]) & ~shaky(dA[1]) & (np.sin(a_r) > 0.05) & (np.linalg.norm(dA[0], axis=1) > 1e-3) & (np.linalg.norm(dA[1], axis=1) > 1e-3)
+            # (leg lengths: of the minimum-image vectors - two atoms may sit almost on top of each other's images)
+            lA = [oracle.mic(d_, H)[1] if H is not None else np.linalg.norm(d_, axis=1) for d_ in dA]
+            cmp_a = ~shaky(dA[0]) & ~shaky(dA[1]) & (np.sin(a_r) > 0.05) & (lA[0] > 1e-2) & (lA[1] > 1e-2)
             if (cmp_a & ~(np.abs(a_o - a_r) <= 2e-3)).any():
                 i = int(np.argmax(cmp_a & ~(np.abs(a_o - a_r) <= 2e-3)))
                 viol.append(("opt-vs-ref/angle", "frame %d triplet %s: optimised path %.6f, reference path %.6f" % (f, T[i].tolist(), a_o[i], a_r[i])))
             if H is not None and periodic:
                 a_s = sh_res[0][f].astype(np.float64)
-                stol = 2e-3 + 64 * oracle.EPS32 * (xmax + 3 * cmax + 1) / np.maximum(np.minimum(np.linalg.norm(dA[0], axis=1), np.linalg.norm(dA[1], axis=1)), 1e-3) / 0.05
+                stol = 2e-3 + 64 * oracle.EPS32 * (xmax + 3 * cmax + 1) / np.maximum(np.minimum(lA[0], lA[1]), 1e-2) / 0.05
                 if (cmp_a & ~(np.abs(a_s - a_o) <= stol)).any():
                     i = int(np.argmax(cmp_a & ~(np.abs(a_s - a_o) <= stol)))
                     viol.append(("lattice-shift/angle", "frame %d triplet %s: %.6f, after moving the atoms by cell vectors %.6f" % (f, T[i].tolist(), a_o[i], a_s[i])))
@@ -300,7 +302,7 @@ def run_case(case):
             if len(Q):
                 vq = [oracle.mic(d, H)[0] if H is not None else d for d in dQ]
                 sm = np.minimum(np.sin(oracle.angle(-vq[0], vq[1])), np.sin(oracle.angle(-vq[1], vq[2])))
-                cmp_q = ~shaky(dQ[0]) & ~shaky(dQ[1]) & ~shaky(dQ[2]) & (sm > 0.05) & np.all([np.linalg.norm(d, axis=1) > 1e-3 for d in dQ], axis=0)
+                cmp_q = ~shaky(dQ[0]) & ~shaky(dQ[1]) & ~shaky(dQ[2]) & (sm > 0.05) & np.all([np.linalg.norm(v_, axis=1) > 1e-2 for v_ in vq], axis=0)
                 dd_ = np.abs((d_o - d_r + math.pi) % (2 * math.pi) - math.pi)
                 if (cmp_q & ~(dd_ <= 5e-3)).any():
                     i = int(np.argmax(cmp_q & ~(dd_ <= 5e-3)))
